@@ -238,7 +238,7 @@ func runPool(c *mc.Ctx, r *mc.Result, pd PoolDef) {
 		if !c.Mine(i) || stopped {
 			return
 		}
-		if i&255 == 0 && c.Expired() {
+		if c.ExpiredEvery(256) {
 			stopped = true
 			r.NotExhaustive = append(r.NotExhaustive, fmt.Sprintf("pool %s: time guard hit at subset #%d", pd.Name, i))
 			return
